@@ -72,6 +72,11 @@ func (q *UnsafeQuery) nextTableOrArchetype() bool {
 }
 
 func (q *UnsafeQuery) nextArchetype() bool {
+	if q.cursor.archetype < -1 {
+		// Closed or completely iterated. Fail on every further call,
+		// also after the caller recovered from the panic of a previous one.
+		panic("query iteration already finished. Create a new query to iterate again")
+	}
 	q.tables = nil
 	maxArchIndex := int32(len(q.world.storage.archetypes) - 1)
 	for q.cursor.archetype < maxArchIndex {
